@@ -12,83 +12,136 @@ Definition show_fres (r : fres) : string :=
   end.
 Definition check (rs : list rune) : string := digest (show_fres (format_res rs)).
 Definition full (rs : list rune) : string := show_fres (format_res rs).
-Eval vm_compute in ("<<<M198>>>" ++ check (runes_of_ascii "root packet int {
+Eval vm_compute in ("<<<M1528>>>" ++ check (runes_of_ascii "options
+    {	BodyLength  =
+char[	7  ]	;
+
+}
+        // c
+
 // @lengthOf(
+packet  asx// " ++ [128512]%N ++ runes_of_ascii " emoji
+
+  {int16 x_y_z
+    ,@calculatedFrom(""""
+	) @lengthOf( 
+    /// triple
+  	chars
+
+)//
+  	repeat
+    repeatCount
+charz
+
+    /// triple
 // " ++ [27880; 37322]%N ++ runes_of_ascii "
-@calculatedFrom( ""packet"")match repeatCount as asx {// packet A { u8 x, }
-65535:int ,
-"""":
-    packetx
-, [ 1, ""it's"", 007 , 3,
-    ""a\\"" , 65535 ] : o,
-[ 7 , 1 ]:
-    len [ ""abc""	,""" ++ [28040; 24687]%N ++ runes_of_ascii """ ] : u
-,} ,// packet A { u8 x, }
-@rightPad ( ' ' ) // " ++ [27880; 37322]%N ++ runes_of_ascii "
-len
-    body `{ , }` , }packet repeatCount { string
-trueish
-,@tag(
-0 )	repeat
-tag/// triple
-`{ , }` , // `tick` ""quote"" 'q'
-@tag(255 // @lengthOf(
-) match packetx as
-string_
-    {
-10 :roots, }//
-,
+
+  ,
 @leftPad
-(
-'\x00'	)
-    @tag( 7 ) repeat i8 // packet A { u8 x, }
-rootA
-/// triple
-// " ++ [128512]%N ++ runes_of_ascii " emoji
-`it's` , uint8x tag`a\` ,
-char[] Z9_ @calculatedFrom( //x
-""" ++ [233]%N ++ runes_of_ascii "t" ++ [233]%N ++ runes_of_ascii """
-    )
-, repeat float32
-trueish	, @leftPad ( /// triple
-'\x00'	)	i64_
-    @calculatedFrom( ""x y""
-    ) //
-, repeat f32 Packet ,  }
-    packet u
-    // c
-    {int64 pack@lengthOf(metadata ) ,	repeat
-    char[//	t
-0123456789 ] int
-    ``
-    , @lengthOf(
-    Header  )@calculatedFrom(""`tick`""
-)	float
-    trueish , @calculatedFrom(	""`tick`""
-    // a // b
-    ) stringy ,// " ++ [128512]%N ++ runes_of_ascii " emoji
-repeat Logon  `it's`  ,
-int32  Z9_ @calculatedFrom(
-""\n""), match// c
-u8x as falsey {
-255 : f32a ,
-00:packetx
-, } ,
-zchar[	0 ] roots , @tag( 00) Logon {
-    i64_
-@lengthOf( MetaDataX //
-) ``
-    , repeat body
-MetaDataX `it's`, x { string rootA ``
-    // a // b
-    , repeat options1 f32a , }//
-, Pad
-, // `tick` ""quote"" 'q'
-} , @calculatedFrom( ""1""
+	(
+	)i64_
+	@calculatedFrom(""\" ++ [233]%N ++ runes_of_ascii """)
+
+`// not a comment`
+
+    ,tag  Z9_
+`two words`
+
+, @lengthOf( asx )  @calculatedFrom(	""`tick`""
+)
+    match	uint8x
+	as 
+matchKey { 0123456789
+	// packet A { u8 x, }
+	// a // b
+:  u8x
+
+    ,
+    1	:
+zchar  ,
+}
+,
+
+u128	@lengthOf(
+
+u128 	 // packet A { u8 x, }
+	) 	 // " ++ [128512]%N ++ runes_of_ascii " emoji
+,  } MetaData
+	msg_type { 
+string  BodyLength
+`two words`,
+	options1	// " ++ [128512]%N ++ runes_of_ascii " emoji
+  i64_ , } 	 // " ++ [128512]%N ++ runes_of_ascii " emoji
+  packet 
+roots {
+
+    u ``
+    ,  @calculatedFrom( ""a	b"" )
+
+match
+len
+as msg_type	{ 
+// c
+    """ ++ [28040; 24687]%N ++ runes_of_ascii """ : charz} , crc
+    @calculatedFrom( 
+	    // packet A { u8 x, }
+  // packet A { u8 x, }
+  ""it's"" 
+)`a\`	, 
+@leftPad  (
+'0' ) 
+@tag(
+007)zchar[  // trailing space 
+    3
+	    // trailing space 
+
+	]falsey
+
+,  @calculatedFrom( // `tick` ""quote"" 'q'
+
+	""\n""
+) @calculatedFrom(
+    ""CRC32""  // c
+) 
+        // trailing space 
+match 
+    //x
+  	Packet as // @lengthOf(
+	stringy {
+
+    1 :	Pad	,""it's""
+:
+    f32a	, },	@leftPad
+(' ')
+    match// " ++ [27880; 37322]%N ++ runes_of_ascii "
+int
+	as
+	a1 {
+
+    [
+
+    0123456789 , 255
+
+]
+
+:
+
+    options1 
+	//x
+
+  //x
+	  }
+    ,  BodyLength 
+//
+
+	@calculatedFrom(
+	""" ++ [28040; 24687]%N ++ runes_of_ascii """),float32 zchar@calculatedFrom(  ""// no comment"" )  ,  @tag(	10 )
+zchar[ 
+
     // packet A { u8 x, }
-    )@lengthOf(T ) char[
-7 ]	pack	`{ , }`	, } MetaData u {
-} /// triple")).
+  1 ] 
+rootA ,
+} ")).
 Eval vm_compute in ("<<<M123>>>" ++ check (runes_of_ascii "
 packet _x{  leftPad `it's`
     , match Logon as
@@ -157,433 +210,335 @@ As @calculatedFrom(
 ""a	b"" ) `line1
 line2`	, pack lengthOf // `tick` ""quote"" 'q'
 , } // `tick` ""quote"" 'q'")).
-Eval vm_compute in ("<<<M1373>>>" ++ check (runes_of_ascii "options { // c1a
-  // c1b
-LittleEndian // c2
-= // c3
-true ;
-    // c5
-StringPrefixLenType = // c7
-u64 ;
-    // c9
-ArrayPrefixLenType = u16 ; // c13a
-  // c13b
-FixedStringPadFromLeft =
-    // c15
-false // c16
-; FixedStringPadChar // c18
-=
-    // c19
-' ' // c20a
-  // c20b
-;
-    // c21
-} packet
-    // c23
-Logon { // c25
-zchar[ // c26a
-  // c26b
-5 // c27a
-  // c27b
-] // c28a
-  // c28b
-Side2 // c29a
-  // c29b
-, // c30
-} root // c32a
-  // c32b
-packet // c33
-Logout // c34
-{ // c35
-repeat i64 Tail
-    // c38
-, // c39
-Logon , // c41
-repeat
-    // c42
-i16 // c43
-OrderId , // c45
-char[] // c46
-venue // c47
-, uint64
-    // c49
-x // c50a
-  // c50b
-,
-    // c51
-repeat // c52
-i16 // c53
-count , u8 // c56
-Flags
-    // c57
-, match Flags
-    // c60
-as
-    // c61
-Body // c62a
-  // c62b
-{ 25
-    // c64
-: Logon
-    // c66
-, // c67a
-  // c67b
-} // c68
-, // c69a
-  // c69b
-u16 Qty @calculatedFrom(
-    // c72
-""CRC32""
-    // c73
-) , // c75a
-  // c75b
-}
-    // c76
-")).
-Eval vm_compute in ("<<<M1489>>>" ++ check (runes_of_ascii "
-
-  options	{  FixedStringPadFromLeft =
-    true	;FixedStringPadChar= '0'
-
-    ; }  packet 
-Leg
-	{ repeat
-	InSym93
-	{
-zchar[
-	3]
-	Acct
-
-,
-string
-
-    Side2	,i32	Flags
-
-, 
-f32
-Note  , i32
-
-msgKind ,
-
-    }
-
-    ,  f64
-Note
-    , uint16  Px 
-,} packet
-
-    Quote
-
-{ zchar[
-
-2 ] OrderId ,
-
-    } packet
-	Ack { repeat string lastPx
-,
-	zchar[
-
-4 ]
-    price
-    , uint32 
-OrderId
-	, Quote
-, int8 Acct , } packet Fill
-	{	repeat
-Leg
-	,@rightPad
-
-(	'0'
-	) 
-char[  11
-	] Note  ,
-f64
-
-Px ,@rightPad (
-'\x00'
-) char[	5
-
-]  Flags
-	,
-
-    zchar[	9
-
-]x ,
-	string 
-msgKind	,} root  packet Order { Leg
-, repeat
-
-    Ack	,
-    @rightPad
-    (
-	'\x00'	) char[ 3
-    ]Side2
-,
-	repeat
-
-char[	1 ]seqNo
-	, u16 clOrdID
-, 
-match 
-clOrdID
-    as
-Body	{
-198:	Leg , 23 :
-Quote ,  13:Ack
-
-,159:
-
-Fill
-    , }
-    ,
-
-u32
-
-venue
-	@calculatedFrom(	""CRC32""
-    ) ,
-}
-")).
-Eval vm_compute in ("<<<M1941>>>" ++ check (runes_of_ascii "packet leftPad {
-    //
-    i8 stringy @calculatedFrom(""" ++ [128512]%N ++ runes_of_ascii """),
-    int @calculatedFrom(""a	b"") `it's`,
-    @leftPad()
-    @tag(0123456789)
-    int32 u8x,
-    @lengthOf(A)
-    float64 u128 @calculatedFrom(""a\\""),//x
-}
-
-options {
-    //x
-    Pad = 0
-    u = ' '
-}
-
-MetaData a1 {
-    char[] metadata `// not a comment`,
-}
-
-packet Foo {
-    @tag(42)
-    repeat BodyLength,
-    int8 metadata `{ , }`,
-    @leftPad()
-    // " ++ [27880; 37322]%N ++ runes_of_ascii "
-    @calculatedFrom(""`tick`"")
-    @calculatedFrom(""a	b"")
-    u32 stringy,
-    @lengthOf(roots)
-    zchar[0] msg_type @lengthOf(i64_) `tab	here`,
-    i8 Header `{ , }`,
-    char[7] trueish @lengthOf(packetx),
-    u64 charz `
-    `,
-    zchar[65535] repeatCount `it's`,
-    match calculatedFrom as calculatedFrom {
-        ""a	b"" : roots,
-        42 : MetaDataX,
+Eval vm_compute in ("<<<M1498>>>" ++ check (runes_of_ascii "root packet crc {
+    @lengthOf(As)
+    @calculatedFrom(""\" ++ [233]%N ++ runes_of_ascii """)
+    zchar[4294967296] MetaDataX `doc`,/// triple
+    rootA @calculatedFrom(""it's""),
+    @tag(65535)
+    @tag(7)
+    @tag(00)
+    len @lengthOf(A) `two words`,
+    // trailing space 
+    // " ++ [128512]%N ++ runes_of_ascii " emoji
+    string rootA @lengthOf(pack),
+    // " ++ [128512]%N ++ runes_of_ascii " emoji
+    // trailing space 
+    repeat zchar,
+    @calculatedFrom(""abc"")
+    @leftPad('\x00')
+    @rightPad()
+    match x_y_z as Z9_ {
+        ""it's"" : Logon,
+        ""x y"" : Packet,
+        ""abc"" : trueish,
+        4294967296 : repeatCount,
+        """ ++ [128512]%N ++ runes_of_ascii """ : x_y_z,
     },
+    char[10] stringy `it's`,
+    @leftPad('\x00')
+    rootA @lengthOf(i64_),
+}
+
+MetaData falsey {
+    Packet repeatCount `tab	here`,
+}
+
+MetaData string_ {
+    float64 roots `line1
+    line2`,
+    char As `
+    `,
+    zchar[65535] falsey `a\`,
+    A T,
+    _x metadata,
+}
+
+packet _x {
+    zchar[255] string_ @lengthOf(u128) `{ , }`,
+}
+
+root packet Packet {
+    repeat lengthOf,
 }")).
-Eval vm_compute in ("<<<M1406>>>" ++ check (runes_of_ascii "
-packet	// packet A { u8 x, }
-	u8x
-
-{
-
-}  root packet 
-matchKey
-    {
-
-repeat
-zchar[	0123456789]  // packet A { u8 x, }
-	int
-    ,
-
-char[
-	// `tick` ""quote"" 'q'
-  // a // b
-	4294967296
-]
-    asx`{ , }` , 
-repeat
-    i8i8 
-,repeat
-
-    Packet
-	{	repeat	leftPad {f32
-    u128@lengthOf(
-    As ),
-body
-`two words`, // packet A { u8 x, }
-rootA
-
-    Pad ,
-}  ,
-char[
-    00
-] msg_type 
-`tab	here` // " ++ [128512]%N ++ runes_of_ascii " emoji
-  	,
-repeat
-//x
-  	i64_
-    `doc`
-    ,
-zchar x_y_z,}  ,
-
-    } 
-root 
-packet int{ repeat
-    f32a {repeat	f32a
-
-    asx
-
-    `u8 x,`
-	, } ,
-	@lengthOf(
-	// @lengthOf(
-
-  //	t
-
-msg_type // packet A { u8 x, }
-      )
-body
-    , 
-      // c
-//
-
-Z9_ // c
-    zchar	`a\`//x
-  , }  //x
-")).
-Eval vm_compute in ("<<<M164>>>" ++ check (runes_of_ascii "//x
-packet x { @lengthOf(
-string_ )
-// `tick` ""quote"" 'q'
-// trailing space 
-msg_type{
-int // a // b
-@lengthOf( chars
-    )
-//x
-// " ++ [27880; 37322]%N ++ runes_of_ascii "
-`" ++ [28040; 24687; 31867; 22411]%N ++ runes_of_ascii "` , int`a\`  , }
-    ,uint32 chars  @calculatedFrom(
-""`tick`""
-    )
-    `
-` , @lengthOf( packetx // trailing space 
-)
-match
-    metadata as x_y_z
-{ 65535	: x ,007
-// `tick` ""quote"" 'q'
-// " ++ [128512]%N ++ runes_of_ascii " emoji
-: u [ 7 ,
-""// no comment""	,  """ ++ [28040; 24687]%N ++ runes_of_ascii """] :x ""a\\""
-: MetaDataX,0123456789 : lengthOf
-10 :
-//
-// `tick` ""quote"" 'q'
-float  }
-    ,
-    u16 Logon@calculatedFrom(""x y"") `tab	here`
-//	t
-//
-,@lengthOf(Foo ) zchar /// triple
-, }  packet
-    tag { } root packet
-x_y_z{ } MetaData int {
-    string
-A `" ++ [233]%N ++ runes_of_ascii "` ,
+Eval vm_compute in ("<<<M1350>>>" ++ check (runes_of_ascii "options {
+    StringPrefixLenType = u64;
+    ArrayPrefixLenType = u32;
+    FixedStringPadFromLeft = false;
+}
+packet Party {
+    zchar[7] OrderId,
+    InTail6 {
+        repeat char[1] msgKind,
+        char[3] Tail,
+        char[3] Flags,
+        i16 tag7,
+    },
+    @rightPad('0') char[12] clOrdID,
+}
+packet Quote {
+    @leftPad('0') char[11] price,
+    repeat InCount7 {
+        i32 x,
+        Party,
+        u8 Ref,
+        u8 tag7,
+    },
+    char[] seqNo,
+    Party,
+}
+packet Logon {
+    @rightPad('\x00') char[5] Note,
+    i16 sym,
+    InPrice72 {
+        char[9] Ref,
+        zchar[1] venue,
+    },
+    char[] clOrdID,
+}
+root packet Reject {
+    repeat Logon,
+    @leftPad(' ') char[4] seqNo,
+    zchar[5] Acct,
+    u32 x,
+    u16 f1 @lengthOf(Body),
+    match x as Body {
+        [169, 74] : Quote,
+        45 : Party,
+        7 : Logon,
+    },
 }
 ")).
-Eval vm_compute in ("<<<M1383>>>" ++ check (runes_of_ascii "// top
-packet // c0a
-  // c0b
-Sub // c1
-{
-    // c2
-u8 // c3a
-  // c3b
-a
-    // c4
-, // c5
-@calculatedFrom( ""CRC16"" )
-    // c8
-i32 // c9
-SubSum
-    // c10
-, } // c12
-root packet // c14a
-  // c14b
-Frame // c15
-{
-    // c16
-u16
-    // c17
-MsgType // c18a
-  // c18b
-, // c19
-u16 // c20a
-  // c20b
-BodyLen // c21a
-  // c21b
-@lengthOf( Body ) , // c25a
-  // c25b
-Sub
-    // c26
-Body // c27
-,
-    // c28
-string // c29a
-  // c29b
-note // c30a
-  // c30b
-,
-    // c31
-@calculatedFrom( // c32
-""CRC16"" ) i32 Checksum // c36a
-  // c36b
-, // c37a
-  // c37b
-u8 // c38
-tail , }
-    // c41
-")).
-Eval vm_compute in ("<<<M45>>>" ++ check (runes_of_ascii "
-packet
-tag{ string matchKey `line1
-line2` , @tag( 0 )// c
-@calculatedFrom( ""1"" )@calculatedFrom( // " ++ [128512]%N ++ runes_of_ascii " emoji
-""a\""b"" ) float64 matchKey
-,}options
-{ crc
-    = true
-    msg_type
-    //	t
-    =
-true;
-} packet o { match  roots
-as calculatedFrom { ""// no comment""
-    // packet A { u8 x, }
-    :
-    msg_type	, ""{,}""
-    :u128, [
-    65535 , 0123456789
-]/// triple
-: body ,// " ++ [128512]%N ++ runes_of_ascii " emoji
-} ,@rightPad ( ' '	) repeat
-string_ i64_ ,
+Eval vm_compute in ("<<<M1483>>>" ++ check (runes_of_ascii "packet 	 // packet A { u8 x, }
+  tag	{
+
+@calculatedFrom(	""x y""  )lengthOf{options1`
+`, 
+}	,
+
+    @tag( 
+7
+
+    )
+    int  { 
+    //x
+
+// " ++ [27880; 37322]%N ++ runes_of_ascii "
+  char[  007 
+] // `tick` ""quote"" 'q'
+      calculatedFrom
 @lengthOf(
-lengthOf )@tag( 255// packet A { u8 x, }
-)	@tag( 00 )
-char[]
-stringy
+metadata 
+) ,
+
+tag
+@lengthOf(falsey) , f32 
+// " ++ [128512]%N ++ runes_of_ascii " emoji
+    calculatedFrom 
+	// `tick` ""quote"" 'q'
+
+	//
+
+	`{ , }`
+    ,  i8i8 {  string i64_	@lengthOf(
+asx  )
+
+`it's`	, 
+u 
+@calculatedFrom(
+
+""\n""
+)
 , }
+
+    ,
+} 
+,
+@calculatedFrom(	""abc""  //
+)
+@leftPad( 
+' '
+	)  uint64  calculatedFrom	, 	 // " ++ [27880; 37322]%N ++ runes_of_ascii "
+
+	}
+packet
+o  { Header,
+@lengthOf(
+
+i8i8 )
+
+float32
+
+Pad  // c
+  ,
+
+char[
+
+42]leftPad
+@calculatedFrom(
+	"""" // " ++ [128512]%N ++ runes_of_ascii " emoji
+    )	, 
+@tag(255
+
+)body u
+,
+    } 
+packet lengthOf
+
+{ 
+    // packet A { u8 x, }
+	// c
+  @tag(
+255 	 //x
+      )char[ 0123456789	]
+	o
+`
+`,  }
 ")).
+Eval vm_compute in ("<<<M369>>>" ++ check (runes_of_ascii "root
+packet leftPad { @calculatedFrom( """ ++ [128512]%N ++ runes_of_ascii """) int64 len
+`{ , }` , } packet
+    u128
+    { zchar[ 65535 ] chars @calculatedFrom( ""\" ++ [233]%N ++ runes_of_ascii """
+    ), @lengthOf(  int
+// packet A { u8 x, }
+// @lengthOf(
+) i64_ , crc { match	Z9_ as Logon
+    {
+10 : int ,
+[ 0 ]
+: u8x ,
+// trailing space 
+//x
+42 :
+    trueish , [ ""\" ++ [233]%N ++ runes_of_ascii """ , 4294967296
+    ]
+:Z9_
+    ""\n""	: u128 ,	} ,
+    repeat string_ uint8x, i8i8 , match u as body
+{ 4294967296:
+// " ++ [27880; 37322]%N ++ runes_of_ascii "
+/// triple
+Z9_, 10
+:	Z9_,
+[ """ ++ [128512]%N ++ runes_of_ascii """
+    ,
+    ""x y"" ]
+: pack ,
+    } , }
+, @tag( // " ++ [128512]%N ++ runes_of_ascii " emoji
+0123456789 )
+    @lengthOf( calculatedFrom) @leftPad ( '\x00' // c
+) zchar[ 3 ]
+    T ,
+match A  as
+    leftPad{ [ """ ++ [28040; 24687]%N ++ runes_of_ascii """ ] :i64_""// no comment"" :
+    string_
+    ,
+} , } // trailing space ")).
+Eval vm_compute in ("<<<M122>>>" ++ check (runes_of_ascii "
+packet u128  { // trailing space 
+string  Header `say ""hi""` , repeat crc
+f32a,
+    char[ 10
+    ] _x	,	@calculatedFrom( ""x y""	) repeat
+    //
+    charz	{
+    Logon @lengthOf(T) `crlf
+line`
+, repeat char[ // trailing space 
+0123456789 ]Z9_
+    `crlf
+line` ,
+    } ,
+    match Packet
+    as
+// " ++ [128512]%N ++ runes_of_ascii " emoji
+// `tick` ""quote"" 'q'
+float // a // b
+{
+    1
+:  lengthOf }  ,  MetaDataX , match x as
+u8x { 10 :crc } , } root packet // `tick` ""quote"" 'q'
+Header // a // b
+{ @calculatedFrom( ""{,}"") a1
+    {  char[
+    // packet A { u8 x, }
+    007 ] pack ,stringy //x
+zchar
+    , repeat
+char[]
+    // " ++ [128512]%N ++ runes_of_ascii " emoji
+    o `it's`	, } , }")).
+Eval vm_compute in ("<<<M113>>>" ++ check (runes_of_ascii "options	{
+As
+= // packet A { u8 x, }
+' '}MetaData o{} root packet pack
+{ } packet tag // " ++ [128512]%N ++ runes_of_ascii " emoji
+{ match falsey as
+BodyLength	{ 4294967296
+:
+    lengthOf
+// c
+// " ++ [27880; 37322]%N ++ runes_of_ascii "
+,[ ""x y""
+,""a\\""
+    ]
+    : rootA , [
+42 , ""a	b"" ,
+    ""CRC32"" , 65535 ,""abc"" , 007 ]
+:
+u8x	""x y"" : A ,
+    /// triple
+    65535 :  i64_,
+    0123456789 :
+    Packet }
+    , @lengthOf(  msg_type)	pack msg_type,
+    @tag( 0 )@lengthOf( Packet
+)/// triple
+@tag(
+3 )
+//	t
+// " ++ [128512]%N ++ runes_of_ascii " emoji
+Foo , repeat float64 zchar, @calculatedFrom(
+""a\""b""
+) @lengthOf(A )@lengthOf( roots
+) options1 @lengthOf(
+Z9_ ),char[] T ,  }")).
+Eval vm_compute in ("<<<M1872>>>" ++ check (runes_of_ascii "options {
+    ArrayPrefixLenType = u64;
+    FixedStringPadFromLeft = true;
+    FixedStringPadChar = '0';
+}
+
+packet Quote {
+}
+
+packet Ack {
+    repeat InNote66 {
+        u8 pad0,
+    },
+}
+
+packet Reject {
+}
+
+root packet Order {
+    Quote,
+    repeat Reject,
+    string venue,
+    string seqNo,
+    uint32 Ref,
+    u16 lastPx,
+    u32 clOrdID @lengthOf(Body),
+    match lastPx as Body {
+        190 : Reject,
+        186 : Quote,
+        22 : Ack,
+    },
+    u16 Flags @calculatedFrom(""CR\
+        C32""),
+}")).
 Eval vm_compute in ("<<<M138>>>" ++ check (runes_of_ascii "packet Header{ char[	10
 ] A`it's` , @calculatedFrom(	""" ++ [28040; 24687]%N ++ runes_of_ascii """)calculatedFrom // a // b
 @lengthOf( zchar ) `tab	here` ,  u32	BodyLength,
@@ -611,546 +566,493 @@ _x
 , }
 
 ")).
-Eval vm_compute in ("<<<M1831>>>" ++ check (runes_of_ascii "packet matchKey {
-    float32 float,
-    @calculatedFrom(""a\\"")
-    @rightPad('\x00')
-    i16 tag @calculatedFrom(""abc""),
-    repeat zchar[255] pack,
-    @lengthOf(Z9_)
-    tag,
-}// trailing space 
-
-root packet rootA {
-    repeat metadata {
-        Logon,
-    },
-    @tag(10)
-    @lengthOf(A)
-    @tag(007)
-    u32 options1,
-    match float as u {
-        0123456789 : u8x,
-    },
-}// " ++ [27880; 37322]%N ++ runes_of_ascii "
-
-root packet lengthOf {
-}")).
-Eval vm_compute in ("<<<M1515>>>" ++ check (runes_of_ascii "packet	a1
-
-{ char[]
-    charz @calculatedFrom( 
-    //x
-	""" ++ [28040; 24687]%N ++ runes_of_ascii """
-
-    )
-    , uint8x`crlf
-line`
-
-, uint64
-	T
-	`line1
-line2`,  @leftPad
-	(
-'0'
-    ) 
-
-    // a // b
-/// triple
-    @calculatedFrom(""abc""
-	)@tag(3
-)match	int// a // b
-
-as
-len
-{
-0
-: chars  ,
-[
-
-10 , 
-""a\\"" , 1	,
-0
-,10 , 0
-	] :
-
-body, 007 :
+Eval vm_compute in ("<<<M0>>>" ++ check (runes_of_ascii "packet leftPad// trailing space 
+{@tag( 10 )
+    @tag( 007 ) @lengthOf(	a1 )
 // a // b
-  rootA 	 // a // b
-  ,},
-falsey
-options1,}
-")).
-Eval vm_compute in ("<<<M323>>>" ++ check (runes_of_ascii "options{ }
-MetaData  string_ // `tick` ""quote"" 'q'
-{ u32
-matchKey `u8 x,`,
-    string  MetaDataX , uint8
-Logon, uint64 options1
-, char[ 00 ] len
-// `tick` ""quote"" 'q'
-// trailing space 
-`tab	here` , u8
-options1
-, }// a // b
-packet a1 { chars ,
-char[]
-i64_ @lengthOf(
+//
+repeat metadata
+    ,
+} // " ++ [128512]%N ++ runes_of_ascii " emoji
+options
+    // @lengthOf(
+    { lengthOf
+= """ ++ [128512]%N ++ runes_of_ascii """	;
+}  packet T
     // " ++ [27880; 37322]%N ++ runes_of_ascii "
-    stringy
-) ,char T,repeat i8 charz
-`a\`
-,
-}
-")).
-Eval vm_compute in ("<<<M205>>>" ++ check (runes_of_ascii "  root packet
-    chars{ string T `say ""hi""`
-, @tag(
-    1  ) body { repeat o { f64 Packet @calculatedFrom( ""a\\"") ,  } , }	,
-} packet pack
-// @lengthOf(
-// a // b
+    { A
 {
-@tag( 4294967296 // `tick` ""quote"" 'q'
-) repeat char[]
-    Logon
+//
+// `tick` ""quote"" 'q'
+tag@calculatedFrom(""abc"")
+, }
+    , @lengthOf( matchKey
+    ) string	Header @lengthOf( metadata
+) ,leftPad
     // trailing space 
-    , repeat
-BodyLength len ,
-    // c
-    }")).
-Eval vm_compute in ("<<<M1685>>>" ++ check (runes_of_ascii "//	t
-    options 
-{	chars
-
-    = true	As= char[] 
-// trailing space 
-// " ++ [128512]%N ++ runes_of_ascii " emoji
-	; 	 /// triple
-  	x_y_z = 7
-
-;	// " ++ [27880; 37322]%N ++ runes_of_ascii "
-    i8i8  =
-true packetx=  /// triple
-	' ' 
-}	root
-packet x_y_z {
-repeat  char[
+    @calculatedFrom(
+""a\""b"" )`crlf
+line`,}
+")).
+Eval vm_compute in ("<<<M74>>>" ++ check (runes_of_ascii "options{ u = 7
+    // " ++ [27880; 37322]%N ++ runes_of_ascii "
+    roots
+=zchar[
+65535
+    ]
+msg_type = """ ++ [233]%N ++ runes_of_ascii "t" ++ [233]%N ++ runes_of_ascii """
+; x =false
+    } MetaData string_ { char[ // trailing space 
 42
-    //x
-    ]	//	t
-  Pad,
-	} 
-    // packet A { u8 x, }")).
-Eval vm_compute in ("<<<M1707>>>" ++ check (runes_of_ascii "
-packet	lengthOf
-{ 
-}
-root packet	leftPad
-{	zchar[ 00 	 // a // b
-  ] Foo`` 	 // c
-  ,
-    @calculatedFrom( ""1""  ) 
-@leftPad
-(
-
-' ' 
-	    // trailing space 
-  	// " ++ [27880; 37322]%N ++ runes_of_ascii "
-	  )  @leftPad( ' '
-)
-
-    repeat
-u8  options1
-    , }
-
-")).
-Eval vm_compute in ("<<<M249>>>" ++ check (runes_of_ascii "
-packet
-rootA {
-} // trailing space 
-packet f32a //	t
-{ match
-zchar as zchar
-    {	65535 : f32a , 7 : charz// trailing space 
-,
-""{,}""
-//	t
 //x
-: Header , 42
-    :a1 // packet A { u8 x, }
-, }
-, }
-")).
-Eval vm_compute in ("<<<M1779>>>" ++ check (runes_of_ascii "
-
-  MetaData leftPad
-
-    {chars
-	MetaDataX
+// " ++ [128512]%N ++ runes_of_ascii " emoji
+]
+i8i8 `" ++ [28040; 24687; 31867; 22411]%N ++ runes_of_ascii "`	, u8
+    x_y_z
+, packetx lengthOf``
+    // " ++ [27880; 37322]%N ++ runes_of_ascii "
     ,
-	} packet
-repeatCount
+T Header `line1
+line2` ,
+char[] // " ++ [27880; 37322]%N ++ runes_of_ascii "
+u8x `two words` ,}packet
+float //x
 {
-
-    char[  255	]
-
-    uint8x `" ++ [233]%N ++ runes_of_ascii "` , }MetaData
-
-    pack
-	{
-
-As 
-        // c
-
-  Foo , }
-")).
-Eval vm_compute in ("<<<M224>>>" ++ check (runes_of_ascii "root packet
-T
-{ zchar[ // a // b
-0123456789
-] // c
-uint8x , }  root packet metadata { @rightPad( )  x_y_z @lengthOf( stringy )
-// `tick` ""quote"" 'q'
-// c
-, }")).
-Eval vm_compute in ("<<<M528>>>" ++ check (runes_of_ascii "packet uint8x
-{ match pack
-    as msg_type	{
-    0123456789 :	float
-}
-,
-} packet //	t
+    calculatedFrom
+    ,
+@rightPad ( '0'
+) char[
+    3
+] u128 , } 	 ")).
+Eval vm_compute in ("<<<M100>>>" ++ check (runes_of_ascii "
+root packet
 a1
-    { } options {packetx
-    = '\x00'	; u128= ""a	b""  packet }
-")).
-Eval vm_compute in ("<<<M488>>>" ++ check (runes_of_ascii "packet uint8x
-{ match pack
-    as msg_type	{
-    0123456789 :	float
-}
-,
-} packet //	t
-a1
-    { } options i8 packetx
-    = '\x00'	; u128= ""a	b""  ; }
-")).
-Eval vm_compute in ("<<<M412>>>" ++ check (runes_of_ascii "packet uint8x
-{ match as
-    pack msg_type	{
-    0123456789 :	float
-}
-,
-} packet //	t
-a1
-    { } options {packetx
-    = '\x00'	; u128= ""a	b""  ; }
-")).
-Eval vm_compute in ("<<<M1842>>>" ++ check (runes_of_ascii "
-MetaData leftPad	{ 
-chars	MetaDataX,
-}
-    packet
-
-    repeatCount {
-char[255	]
-
-uint8x `" ++ [233]%N ++ runes_of_ascii "`
-,}
-
-MetaData pack 
-    // c
-      {
-	As
-
-Foo ,
-
-}
-
-")).
-Eval vm_compute in ("<<<M698>>>" ++ check (runes_of_ascii "// @lengthOf(
-packet i8i8 { u128 o , }
-options { MetaDataX = true;
-    BodyLength =""packet"" x_y_z= 007
-crc //x
-= ""abc"" ;
-    msg_type =
-i16 i16 }")).
-Eval vm_compute in ("<<<M657>>>" ++ check (runes_of_ascii "// @lengthOf(
-packet i8i8 { u128 o , }
-options { MetaDataX = true;
-    BodyLength =""packet"" x_y_z= 007
-?crc //x
-= ""abc"" ;
-    msg_type =
-i16 }")).
-Eval vm_compute in ("<<<M689>>>" ++ check (runes_of_ascii "// @lengthOf(
-packet i8i8 { u128 o , }
-options { MetaDataX  true;
-    BodyLength =""packet"" x_y_z= 007
-crc //x
-= ""abc"" ;
-    msg_type =
-i16 }")).
-Eval vm_compute in ("<<<M1740>>>" ++ check (runes_of_ascii "  packet
-    A
     {
-
-match 
-k as
-    n
-{
-
-[ ""a""  ,
-
-""bb""
-    ,
-	007
-
-    , ""d""
-	,
-""e""
-,66
-,	""g""
-
+tag Pad``
+, } options {
+}
+    root packet int	{
+    uint64 f32a , } packet
+MetaDataX {// c
+@leftPad( ' ' ) /// triple
+repeat uint16 Header	`{ , }`
 ,
-""h"" ]
-
-    :
-B
-
-, 2
-:C }
-, }
-")).
-Eval vm_compute in ("<<<M1501>>>" ++ check (runes_of_ascii "MetaData leftPad {
-    chars MetaDataX,
-}
-
-packet repeatCount {
-    char[255] uint8x `" ++ [233]%N ++ runes_of_ascii "`,
-}
-
-MetaData pack {
-    // c
-    As Foo,
-}")).
-Eval vm_compute in ("<<<M1949>>>" ++ check (runes_of_ascii "
-packet
-uint8x
-	{match  pack
-    as 
-msg_type {
-
-    0123456789
-
-:
-    float
-
-    } ,  }
-    packet 	 //	t
-    	a1{
-
-}")).
-Eval vm_compute in ("<<<M1154>>>" ++ check (runes_of_ascii "MetaData leftPad { chars MetaDataX ,
-// c
-} packet repeatCount { char[ 255 ] uint8x `" ++ [233]%N ++ runes_of_ascii "` , } MetaData pack { As Foo , }")).
-Eval vm_compute in ("<<<M1186>>>" ++ check (runes_of_ascii "MetaData leftPad { chars MetaDataX , } packet repeatCount { char[ 255 ] uint8x `" ++ [233]%N ++ runes_of_ascii "` , } MetaData pack { As Foo
-// c
-, }")).
-Eval vm_compute in ("<<<M136>>>" ++ check (runes_of_ascii "// a // b
-options { // " ++ [128512]%N ++ runes_of_ascii " emoji
-calculatedFrom=
-'\x00'	; BodyLength = true ;asx // packet A { u8 x, }
-= true }")).
-Eval vm_compute in ("<<<M1269>>>" ++ check (runes_of_ascii "  packet	B
-{
-u8 a , 
-string	s
-	,
-    }
-    root
-	packet P
-
-{ u16
-
-L @lengthOf( B ), B
-    , 
-u8  t ,
-}
-")).
-Eval vm_compute in ("<<<M1317>>>" ++ check (runes_of_ascii "packet FooBar {
-    u8 a,
-}
-packet foo_bar {
-    u16 b,
-}
-root packet R {
-    FooBar,
-    foo_bar,
-}
-")).
-Eval vm_compute in ("<<<M1451>>>" ++ check (runes_of_ascii "packet
-
-    A 
-{ 
-u16 // a
-
-len // b
-@lengthOf(// c
-  	body  // d
-
-)	// e
-	`d`  // f
-	  , }
-")).
-Eval vm_compute in ("<<<M887>>>" ++ check (runes_of_ascii "packet A {
-  match k as n {
-    [1, 22, ""c c"", 4, 5, ""f"", 7, 8, ""i"", 10] : B
-    2 : C
-  },
-}")).
-Eval vm_compute in ("<<<M559>>>" ++ check (runes_of_ascii "
-packet
-    { asx match u128 as lengthOf
-{
-//	t
 // `tick` ""quote"" 'q'
-255 : x ,
-    } ,	}")).
-Eval vm_compute in ("<<<M874>>>" ++ check (runes_of_ascii "packet A {
-  match k as n {
-    [1, 22, ""c c"", 4, 5, ""f"", 7, 8, ""i""] : B
-    2 : C
-  },
-}")).
-Eval vm_compute in ("<<<M1289>>>" ++ check (runes_of_ascii "
-root
+/// triple
+}
+options {
+Z9_= false
+    falsey //	t
+= ""x y"" ; rootA = false
+    // a // b
+    Foo	=true
+lengthOf
+    = float64 }")).
+Eval vm_compute in ("<<<M262>>>" ++ check (runes_of_ascii "  packet  Logon
+    { o Header ,	Header
+, @lengthOf(
+u )	char[ 255 ] tag `tab	here`, char[]falsey ,
+    @lengthOf(	zchar )
+    @rightPad (
+) float roots// @lengthOf(
+,
+@calculatedFrom(	""// no comment"") i64
+u8x,
+} options { metadata = '0' ;_x = 4294967296 ; Packet
+    =
+    '0'
+;
+    }
 
-    packet
+")).
+Eval vm_compute in ("<<<M80>>>" ++ check (runes_of_ascii "packet
+    len { // trailing space 
+repeat zchar f32a `// not a comment` , @tag( 255 )repeat  Pad { x T
+, } , @calculatedFrom(
+""{,}"") repeat
+    // a // b
+    leftPad { u64 u8x `tab	here` ,o Packet
+    ,char[] chars , } , @tag( 3 )float64
+    i8i8 , }
+")).
+Eval vm_compute in ("<<<M124>>>" ++ check (runes_of_ascii "MetaData Z9_
+{zchar[4294967296 ]
+    leftPad `u8 x,`,
+}
+MetaData body { trueish
+    len `// not a comment` , }root
+packet // @lengthOf(
+u8x{ char[ 10 ] x
+    @calculatedFrom(
+// a // b
+// packet A { u8 x, }
+""\" ++ [233]%N ++ runes_of_ascii """ ) , }
+")).
+Eval vm_compute in ("<<<M92>>>" ++ check (runes_of_ascii "packet lengthOf { } root packet leftPad {  zchar[00// a // b
+]
+    Foo `` // c
+, @calculatedFrom( ""1"" )
+@leftPad (
+    ' '
+// trailing space 
+// " ++ [27880; 37322]%N ++ runes_of_ascii "
+)  @leftPad
+( ' ')
+repeat u8
+options1 , }")).
+Eval vm_compute in ("<<<M1476>>>" ++ check (runes_of_ascii "
+packet  A 
+{match 
+k as
 
-P
-{repeat	string
-    ss
-    ,  repeat
-    u16
-ns
+n
+{  [
+
+    ""a"" 
+, 
+22
+
+,	""c c"", 4
+
     ,
 
-    }
+    ""e"",
+
+    66
+
+    , ""g""
+	,	8 ,  ""i"" 
+, 10 
+, ""k"" ,12
+
+    ]
+	:
+    B
+
+2 :
+C 
+}, }
+
 ")).
-Eval vm_compute in ("<<<M469>>>" ++ check (runes_of_ascii "packet uint8x
+Eval vm_compute in ("<<<M1525>>>" ++ check (runes_of_ascii "
+
+  packet 
+A
+
+{match
+
+k
+
+as  n
+
+    {
+[
+    ""a"" 
+,  ""bb""
+,""c c""  ,""d""
+,
+""e"", ""f""
+
+    ,""g"" 
+, ""h"" 
+]
+:  B
+
+    ,
+
+    2 
+:
+    C
+    }
+,
+
+    } ")).
+Eval vm_compute in ("<<<M416>>>" ++ check (runes_of_ascii "packet uint8x
+{ match pack
+    as as msg_type	{
+    0123456789 :	float
+}
+,
+} packet //	t
+a1
+    { } options {packetx
+    = '\x00'	; u128= ""a	b""  ; }
+")).
+Eval vm_compute in ("<<<M672>>>" ++ check (runes_of_ascii "// @lengthOf(
+packet i8i8 { u128 o , }
+options { MetaDataX = true;
+    BodyLength =""packet"" x_y_z= 007
+crc //x
+= ""abc"" ;
+    msg_type =
+@leftpad i16 }")).
+Eval vm_compute in ("<<<M457>>>" ++ check (runes_of_ascii "packet uint8x
 { match pack
     as msg_type	{
     0123456789 :	float
 }
 ,
-} packet")).
-Eval vm_compute in ("<<<M1251>>>" ++ check (runes_of_ascii "packet
-Inner
-	{u8	a 
+packet } //	t
+a1
+    { } options {packetx
+    = '\x00'	; u128= ""a	b""  ; }
+")).
+Eval vm_compute in ("<<<M495>>>" ++ check (runes_of_ascii "packet uint8x
+{ match pack
+    as msg_type	{
+    0123456789 :	float
+}
 ,
-} root
-	packet 
-P
-{ Inner	ref_obj,  u8	x
-,
+} packet //	t
+a1
+    { } options {packetx
+     '\x00'	; u128= ""a	b""  ; }
+")).
+Eval vm_compute in ("<<<M1534>>>" ++ check (runes_of_ascii "
+packet 
 
-    }
+    // " ++ [27880; 37322]%N ++ runes_of_ascii "
+Logon
+
+{
+	repeatCount@lengthOf(roots  ) ,
+	@tag(0
+
+    ) repeat	zchar[
+
+007] crc
+, rootA
+    a1	`{ , }`
+	,	string_ 
+`" ++ [233]%N ++ runes_of_ascii "`
+,}")).
+Eval vm_compute in ("<<<M1871>>>" ++ check (runes_of_ascii "packet A {
+    match k as n {
+        [
+            ""a"", ""bb"", ""c c"", ""d"", ""e"",
+            ""f"", ""g"", ""h""
+        ] : B,
+        2 : C,
+    },
+}")).
+Eval vm_compute in ("<<<M1649>>>" ++ check (runes_of_ascii "
+options
+
+    {
+	o=  '\x00'	// " ++ [128512]%N ++ runes_of_ascii " emoji
+  ;
+    T=	u32 ; 
+msg_type  
+      // `tick` ""quote"" 'q'
+
+//
+    = ""a	b""a1 =	'\x00'	}
+	// " ++ [128512]%N ++ runes_of_ascii " emoji")).
+Eval vm_compute in ("<<<M714>>>" ++ check (runes_of_ascii "// @lengthOf(
+packet i8i8 { u128 o , }
+options { MetaDataX = true;
+    BodyLength =""packet"" x_y_z= 007
+crc //x
+= ""abc"" ;
+    msg_type")).
+Eval vm_compute in ("<<<M1397>>>" ++ check (runes_of_ascii "packet A {
+    match k as n {
+        [
+            ""a"", 22, ""c c"", 4, ""e"",
+            66
+        ] : B,
+        2 : C,
+    },
+}")).
+Eval vm_compute in ("<<<M1194>>>" ++ check (runes_of_ascii "// top
+packet // c0
+body // c1
+{ // c2
+i32 // c3
+f32a // c4
+`{ , }` // c5
+, // c6
+} // c7
+options // c8
+{ // c9
+} // c10
+")).
+Eval vm_compute in ("<<<M1160>>>" ++ check (runes_of_ascii "MetaData leftPad { chars MetaDataX , } packet repeatCount
+// c
+{ char[ 255 ] uint8x `" ++ [233]%N ++ runes_of_ascii "` , } MetaData pack { As Foo , }")).
+Eval vm_compute in ("<<<M1906>>>" ++ check (runes_of_ascii "
+packet A	{  match k
+
+as  n	{[
+
+    ""a""
+, 
+""bb"" 
+,	007 , ""d"", ""e""
+    ]
+	:
+
+    B
+	,
+
+    2  :C
+
+} ,
+
+    } ")).
+Eval vm_compute in ("<<<M943>>>" ++ check (runes_of_ascii "packet A {
+    u16 len @lengthOf(body) `a
+
+b`,
+    u32 crc @calculatedFrom(""CRC32"") `a
+
+b`,
+    string body,
+}")).
+Eval vm_compute in ("<<<M535>>>" ++ check (runes_of_ascii "packet uint8x
+{ match pack
+    as msg_type	{
+    0123456789 :	float
+}
+,
+} packet //	t
+a1
+    { } opti")).
+Eval vm_compute in ("<<<M950>>>" ++ check (runes_of_ascii "packet A {
+    Inner {
+        u8 x `x
+`,
+        Deep {
+            u8 y `x
+`,
+        },
+    },
+}")).
+Eval vm_compute in ("<<<M1820>>>" ++ check (runes_of_ascii "packet  A{
+match k
+as n
+
+    {  [1
+,
+22	,
+007
+,  4
+, 5  ,
+
+66, 
+7  , 
+8
+	,
+9]:
+	B
+2:C }
+	,}
 
 ")).
-Eval vm_compute in ("<<<M821>>>" ++ check (runes_of_ascii "packet A {
+Eval vm_compute in ("<<<M841>>>" ++ check (runes_of_ascii "packet A {
   match k as n {
-    [1, 22, ""c c"", 4, 5] : B,
+    [""a"", ""bb"", ""c c"", ""d"", ""e"", ""f"", ""g""] : B,
     2 : C
   },
 }")).
-Eval vm_compute in ("<<<M1910>>>" ++ check (runes_of_ascii "
-packet
-
-    A
-	{ 
-B b `a
-b`
-,
-B`a
-b` ,
-
-repeat
-
-B
-	bs
-`a
-b` , }
-")).
-Eval vm_compute in ("<<<M628>>>" ++ check (runes_of_ascii "
+Eval vm_compute in ("<<<M644>>>" ++ check (runes_of_ascii "
 packet
     asx {match u128 as lengthOf
 {
 //	t
-// `tick` ""quote""")).
-Eval vm_compute in ("<<<M314>>>" ++ check (runes_of_ascii "root packet string_{
-char[] matchKey ,
-} packet x {
-    } 	 ")).
-Eval vm_compute in ("<<<M1422>>>" ++ check (runes_of_ascii "
+// `tick` ""quote"" 'q'
+255 : x" ++ [178]%N ++ runes_of_ascii " ,
+    } ,	}")).
+Eval vm_compute in ("<<<M607>>>" ++ check (runes_of_ascii "
+packet
+    asx {match u128 as lengthOf
+{
+//	t
+// `tick` ""quote"" 'q'
+255 : x 
+    } ,	}")).
+Eval vm_compute in ("<<<M969>>>" ++ check (runes_of_ascii "packet A {
+    u32 crc @calculatedFrom(""x\
+y""),
+    @calculatedFrom(""x\
+y"") u8 y,
+}")).
+Eval vm_compute in ("<<<M748>>>" ++ check (runes_of_ascii "options match @lengthOf( options char[] zchar[ MetaData f32 f64 u16 ""{,}"" `doc` (")).
+Eval vm_compute in ("<<<M125>>>" ++ check (runes_of_ascii "//	t
+options {
+    roots  =  ""\n""	; o
+    //
+    = '0' ;
+tag
+    =true
+    }")).
+Eval vm_compute in ("<<<M806>>>" ++ check (runes_of_ascii "packet A {
+  match k as n {
+    [""a"", 22, ""c c"", 4] : B,
+    2 : C
+  },
+}")).
+Eval vm_compute in ("<<<M798>>>" ++ check (runes_of_ascii "packet A {
+  match k as n {
+    [""a"", ""bb"", 007] : B
+    2 : C
+  },
+}")).
+Eval vm_compute in ("<<<M167>>>" ++ check (runes_of_ascii "packet msg_type { repeat// " ++ [27880; 37322]%N ++ runes_of_ascii "
+zchar[  007] Logon `two words`, }
+")).
+Eval vm_compute in ("<<<M1102>>>" ++ check (runes_of_ascii "// top
 MetaData
-_x {  i64 u128
-	,
-	Packet	Header	,
-
-    }
-")).
-Eval vm_compute in ("<<<M1201>>>" ++ check (runes_of_ascii "packet body // c
-{ i32 f32a `{ , }` , } options { }")).
-Eval vm_compute in ("<<<M1912>>>" ++ check (runes_of_ascii "
-packet
-A
-{	u8
-    x  `d" ++ [12288]%N ++ runes_of_ascii "`
-
-    , 	 // c" ++ [12288]%N ++ runes_of_ascii "
-  }
-")).
-Eval vm_compute in ("<<<M1535>>>" ++ check (runes_of_ascii "options {
-    trueish = '0';
-    a1 = u64;
-}")).
-Eval vm_compute in ("<<<M1611>>>" ++ check (runes_of_ascii "
-packet
-A{
-	u8
-	x
-	`d" ++ [8192]%N ++ runes_of_ascii "`, 	 // c" ++ [8192]%N ++ runes_of_ascii "
-
-  }
-")).
-Eval vm_compute in ("<<<M1090>>>" ++ check (runes_of_ascii "packet A { @tag( // a
- 1 ) u8 x, }")).
-Eval vm_compute in ("<<<M1584>>>" ++ check (runes_of_ascii "options {
-    options1 = ' ';
-}")).
-Eval vm_compute in ("<<<M1077>>>" ++ check (runes_of_ascii "MetaData M {
-}// c
-options {}")).
-Eval vm_compute in ("<<<M1084>>>" ++ check (runes_of_ascii "packet A { // a
- u8 x, }")).
-Eval vm_compute in ("<<<M1108>>>" ++ check (runes_of_ascii "MetaData tag
-// c
-{ }")).
-Eval vm_compute in ("<<<M1131>>>" ++ check (runes_of_ascii "MetaData
-// c
-u { }")).
-Eval vm_compute in ("<<<M1022>>>" ++ check (runes_of_ascii "// c" ++ [8239]%N ++ runes_of_ascii "
-packet A {
-}")).
-Eval vm_compute in ("<<<M1009>>>" ++ check (runes_of_ascii "packet A {
-}// c" ++ [8232]%N)).
-Eval vm_compute in ("<<<M1071>>>" ++ check (runes_of_ascii "packet A {
+    // c0
+tag
+    // c1
+{ // c2
 }
-
-
+    // c3
 ")).
-Eval vm_compute in ("<<<M1040>>>" ++ check (runes_of_ascii "// c 	")).
-Eval vm_compute in ("<<<M746>>>" ++ check (runes_of_ascii "UXk")).
+Eval vm_compute in ("<<<M764>>>" ++ check (runes_of_ascii "float32 true uint8 f32 i64 i32 @leftPad ) char[ } uint8")).
+Eval vm_compute in ("<<<M1205>>>" ++ check (runes_of_ascii "packet body { i32 // c
+f32a `{ , }` , } options { }")).
+Eval vm_compute in ("<<<M654>>>" ++ check (runes_of_ascii "// @lengthOf(
+packet i8i8 { u128 o , }
+options {")).
+Eval vm_compute in ("<<<M1725>>>" ++ check (runes_of_ascii "  packet A
+
+    {
+	u8 x	,  // c
+  u8
+y,	} ")).
+Eval vm_compute in ("<<<M1815>>>" ++ check (runes_of_ascii "root packet A {
+    u8 x `
+        `,
+}")).
+Eval vm_compute in ("<<<M946>>>" ++ check (runes_of_ascii "root packet A {
+    u8 x `a
+
+b`,
+}")).
+Eval vm_compute in ("<<<M1790>>>" ++ check (runes_of_ascii "packet A {
+    u8 x `
+    x`,
+}")).
+Eval vm_compute in ("<<<M1941>>>" ++ check (runes_of_ascii "packet	A{ } 
+        // c" ++ [8203]%N ++ runes_of_ascii "
+ 
+")).
+Eval vm_compute in ("<<<M1494>>>" ++ check (runes_of_ascii "root packet msg_type {
+}")).
+Eval vm_compute in ("<<<M1110>>>" ++ check (runes_of_ascii "MetaData tag {
+// c
+}")).
+Eval vm_compute in ("<<<M1687>>>" ++ check (runes_of_ascii "packet int {
+}
+//	t")).
+Eval vm_compute in ("<<<M1036>>>" ++ check (runes_of_ascii "packet A {
+}
+// c" ++ [12]%N)).
+Eval vm_compute in ("<<<M1029>>>" ++ check (runes_of_ascii "packet A {
+}// c" ++ [11]%N)).
+Eval vm_compute in ("<<<M1662>>>" ++ check (runes_of_ascii "packet pack {
+}")).
+Eval vm_compute in ("<<<M399>>>" ++ check (runes_of_ascii "packet")).
+Eval vm_compute in ("<<<M736>>>" ++ check (runes_of_ascii " " ++ [12]%N ++ runes_of_ascii " ")).
